@@ -393,7 +393,7 @@ type docKind struct {
 func dumpClient(all *v1.ClientConfig) string {
 	items := []string{coqOfAny(&all.ClientCommonConfig)}
 	for _, p := range all.Proxies {
-		items = append(items, coqCfg(p.ProxyConfigurer))
+		items = append(items, dumpProxy(p.ProxyConfigurer))
 	}
 	for _, v := range all.Visitors {
 		items = append(items, coqVisitor(v.VisitorConfigurer))
@@ -402,7 +402,20 @@ func dumpClient(all *v1.ClientConfig) string {
 }
 
 func coqVisitor(v v1.VisitorConfigurer) string {
-	return "(" + reflect.TypeOf(v).Elem().Name() + " " + coqOfAny(v) + ")"
+	d := ""
+	if o := v.GetBaseConfig().Plugin.VisitorPluginOptions; o != nil {
+		d = fmt.Sprintf(" plugin=%+v", reflect.ValueOf(o).Elem().Interface())
+	}
+	return "(" + reflect.TypeOf(v).Elem().Name() + " " + coqOfAny(v) + d + ")"
+}
+
+// coqCfg plus the content of the plugin options (opaque in the Coq term)
+func dumpProxy(c v1.ProxyConfigurer) string {
+	d := ""
+	if o := c.GetBaseConfig().Plugin.ClientPluginOptions; o != nil {
+		d = fmt.Sprintf(" plugin=%+v", reflect.ValueOf(o).Elem().Interface())
+	}
+	return coqCfg(c) + d
 }
 
 var clientKind = docKind{
@@ -424,7 +437,7 @@ var clientKind = docKind{
 		}
 		items := []string{coqOfAny(cc)}
 		for _, p := range pcs {
-			items = append(items, coqCfg(p))
+			items = append(items, dumpProxy(p))
 		}
 		for _, v := range vcs {
 			items = append(items, coqVisitor(v))
@@ -541,6 +554,40 @@ func (d *drv) checkDoc(g *gen, k docKind, tree obj, want, wantCompleted string, 
 		idx++
 	})
 	levels[k.name+":"+label]++
+	// and, systematically, at every plugin table of the document (typed levels of their own)
+	{
+		n := 0
+		probe2 := deepCopy(tree)
+		walkObjs(&probe2, "top", func(l string, at *obj) {
+			if strings.HasSuffix(l, ".plugin") {
+				n++
+			}
+		})
+		for pi := 0; pi < n; pi++ {
+			b2 := deepCopy(tree)
+			seen, lab := 0, ""
+			walkObjs(&b2, "top", func(l string, at *obj) {
+				if strings.HasSuffix(l, ".plugin") {
+					if seen == pi {
+						lab = l
+						*at = append(*at, kv{"unknownPluginField", "v"})
+					}
+					seen++
+				}
+			})
+			levels[k.name+":"+lab+"(sweep)"]++
+			for f, doc := range render(b2) {
+				if _, err := k.load(doc, true); err == nil {
+					d.fail("strict-accepts-unknown:"+k.name+":"+f+":"+lab, "strict mode accepts a document with an unknown field at "+lab+" ("+f+")", string(doc))
+				} else {
+					st["strict_unknown_rejected_plugin_level"]++
+				}
+				if _, err := k.load(doc, false); err != nil {
+					d.fail("nonstrict-rejects-unknown:"+k.name+":"+f+":"+lab, "non-strict mode rejects an unknown field at "+lab+": "+err.Error(), string(doc))
+				}
+			}
+		}
+	}
 	bdocs := render(bad)
 	for _, f := range formatNames {
 		if _, err := k.load(bdocs[f], true); err == nil {
@@ -587,16 +634,17 @@ func (d *drv) runFormats(g *gen, n int) map[string]any {
 		ccDone := cc
 		ccDone.Complete()
 		d.checkPreserved("client", &cc, &ccDone, "")
+		d.checkDocDefaultsClient(&cc, &ccDone)
 		wantDone := []string{coqOfAny(&ccDone)}
 		plist := []obj{}
 		for k := 0; k < 1+g.intn(3); k++ {
 			c := g.proxyCfg(g.pick(proxyTypes))
 			plist = append(plist, g.proxyTree(c))
-			want = append(want, coqCfg(c))
+			want = append(want, dumpProxy(c))
 			e := cloneProxy(c)
 			e.Complete(cc.User)
 			d.checkPreserved("proxy", c, e, "")
-			wantDone = append(wantDone, coqCfg(e))
+			wantDone = append(wantDone, dumpProxy(e))
 		}
 		tree = append(tree, kv{"proxies", plist})
 		if g.chance(0.7) {
@@ -620,10 +668,12 @@ func (d *drv) runFormats(g *gen, n int) map[string]any {
 			scDone := sc
 			scDone.Complete()
 			d.checkPreserved("server", &sc, &scDone, string(render(stree)["toml"]))
+			d.checkDocDefaultsServer(&sc, &scDone, string(render(stree)["toml"]))
 			d.checkDoc(g, serverKind, stree, coqOfAny(&sc), coqOfAny(&scDone), i%4 == 1, st, levels, dir)
 		}
 	}
 	ini := d.runIni(g, n/4+10, dir)
+	lc := d.runLegacyCommon(g, dir)
 	fl := d.runFlags(g, n/2+6, dir)
 	tp := d.runTemplates(g, n/2+6)
 	out := map[string]any{}
@@ -633,6 +683,7 @@ func (d *drv) runFormats(g *gen, n int) map[string]any {
 	out["unknown_field_levels"] = levels
 	out["flags"] = fl
 	out["ini"] = ini
+	out["legacy_common"] = lc
 	out["templates"] = tp
 	return out
 }
